@@ -126,7 +126,10 @@ pub fn run(ctx: &Ctx, out: &mut Out) {
         let (text, _n, goals) = crate::progen::provisional_program(&mut rng, true);
         jobs.push((text, goals));
     }
-    for (text, goals) in jobs {
+    for (jidx, (text, goals)) in jobs.into_iter().enumerate() {
+        if !ctx.mine(jidx) {
+            continue;
+        }
         let (_db, program) = match lower_program(&text, chalk_integration::SolverChoice::slg_default()) {
             Ok(x) => x,
             Err(e) => {
@@ -177,7 +180,15 @@ pub fn run(ctx: &Ctx, out: &mut Out) {
                     // and the shape of the reachable cycles refines the classifiers
                     let graph = text.contains("impl G for N");
                     let shape = if graph { crate::progen::graph_shape(&text, gtext) } else { "" };
-                    let budget = if graph { Some(if name == "slg" { 2500 } else { 200_000 }) } else { None };
+                    // (every solve runs under a work budget: an SLG solver that does not return would
+                    // otherwise hang the whole check; clean solves of these programs need < 2000 steps)
+                    let budget = if graph { Some(if name == "slg" { 2500 } else { 200_000 }) } else { Some(if name == "slg" { 6000 } else { 400_000 }) };
+                    // (the case about to run is recorded: if the process dies or the shard times out, the
+                    // parent reports this input)
+                    if !ctx.inflight(&format!("{} {} #{} | {} | goal {{ {} }}", name, mode, k, text.replace('\n', " | "), gtext)) {
+                        out.count("skipped_crashed_earlier");
+                        continue;
+                    }
                     let r = if mode == "shared" {
                         solve_budget(&shared, peeled, budget)
                     } else {
@@ -191,7 +202,18 @@ pub fn run(ctx: &Ctx, out: &mut Out) {
                             "slg_negative_subgoal_delayed_panic".to_string()
                         } else if site == BUDGET_PANIC {
                             out.count(&format!("{}_budget_exceeded_{}", name, shape));
-                            format!("{}_work_budget_exceeded@{}", name, shape)
+                            format!("{}_work_budget_exceeded@{}", name, if graph {
+                                shape
+                            } else if text.lines().any(|l| l.starts_with("struct") && l.contains("<P0>") && l.split(':').skip(1).any(|f| f.matches('<').count() >= 2 && f.contains("P0"))) {
+                                // a generic struct one of whose field types nests its parameter under two
+                                // constructors (`struct S5<P0> { f0: S2<S4<P0>> }`): polymorphic recursion,
+                                // the set of types reachable through fields is infinite (F35)
+                                "auto-growing"
+                            } else if mode == "shared" {
+                                "auto-shared"
+                            } else {
+                                "auto-fresh"
+                            })
                         } else {
                             format!("{}_panic", name)
                         };
